@@ -14,7 +14,7 @@ RULE = ("a valid input set for every command (snps, closest, updown list, updown
         "applied to each applicable input file at the first, a middle and the last record: unequal row length (longer, shorter, or a header with no sequence at all), non-IUPAC "
         "symbol, empty file, missing file, header-less/empty SAM, reference vs alignment width, query vs target width, two "
         "records in --reference, empty CSV, CSV that is not updown list output, window outside 1..reference length and "
-        "start > end, unrecognised annotation suffix, no size/dist option, and each invalid topranking file next to a header-only (valid, zero-row) CSV on the other side. Every run is the built binary under a timeout; "
+        "start > end, unrecognised annotation suffix, a reference of another length than the annotation or a gff with two ##sequence-region lines (variants and sam variants), no size/dist option, and each invalid topranking file next to a header-only (valid, zero-row) CSV on the other side. Every run is the built binary under a timeout; "
         "the verdict is the exit status: 0 or a timeout is a violation. Non-trivial: every corrupted run. Distinct by (command, "
         "file, corruption, position).")
 ASSUMPTIONS = ["exit status 2 (Go panic) counts as a refusal with a non-zero exit; C16 separately demands that the FASTA readers never panic",
@@ -155,6 +155,20 @@ def check(ctx):
         runs.append(("topranking: target narrower than the reference", ["updown", "topranking", "-r", ref, "-q", alnp, "-t", narrower, "--dist-all", "50"], None))
         runs.append(("topranking: query narrower than the reference", ["updown", "topranking", "-r", ref, "-q", narrower, "-t", alnp, "--dist-all", "50"], None))
         runs.append(("variants: msa narrower than the annotation", sub(base["variants gff"], msa, W("short.fasta", fasta([("REF", genome[:-3])] + [(nm, s[:-3]) for nm, s in aln]))), None))
+        # the annotation and the reference have to be in the same coordinates, for both commands that take an annotation
+        shortref = W("shortref.fasta", fasta([("REF", genome[:-3])]))
+        ssam = W("short.sam", samgen.render_sam("REF", L - 3, [{"name": "q", "flag": 0, "pos": 0, "cigar": [("M", L - 3)], "seq": genome[:-3]}]))
+        for an, ap_ in (("gff", gff), ("gb", gb)):
+            runs.append(("sam variants: reference 3 bases shorter than the %s annotation" % an, ["sam", "variants", "-s", ssam, "-r", shortref, "-a", ap_], None))
+        longref = W("longref.fasta", fasta([("REF", genome + "ACG")]))
+        lsam = W("long.sam", samgen.render_sam("REF", L + 3, [{"name": "q", "flag": 0, "pos": 0, "cigar": [("M", L + 3)], "seq": genome + "ACG"}]))
+        lmsa = W("longmsa.fasta", fasta([("REF", genome + "ACG"), ("q", genome + "ACG")]))
+        for an, ap_ in (("gff", gff), ("gb", gb)):
+            runs.append(("sam variants: reference 3 bases longer than the %s annotation" % an, ["sam", "variants", "-s", lsam, "-r", longref, "-a", ap_], None))
+            runs.append(("variants: reference 3 bases longer than the %s annotation" % an, ["variants", "--msa", lmsa, "-r", "REF", "-a", ap_], None))
+        tworeg = W("tworegions.gff", open(gff, "rb").read().replace(b"##sequence-region", b"##sequence-region other 1 99\n##sequence-region", 1))
+        runs.append(("variants: two ##sequence-region lines in the gff", sub(base["variants gff"], gff, tworeg), None))
+        runs.append(("sam variants: two ##sequence-region lines in the gff", sub(base["sam variants"], gff, tworeg), None))
         # two records in --reference
         two = W("tworefs.fasta", fasta([("REF", genome), ("REF2", genome)]))
         for name in ("snps", "updown list", "topranking", "topa", "sam variants"):
